@@ -90,8 +90,12 @@ func (s *Session) WriteReplay(ce *Counterexample, dir string) error {
 	if ce.Pkg == "." || ce.Pkg == "" {
 		pkgPat = "."
 	}
-	sh := fmt.Sprintf("#!/bin/sh\n# replays the counterexample natively against the real code of %s\ncd %s && VERIF_REPLAY=%s GOFLAGS=-mod=mod GOPROXY=off GOSUMDB=off GOTOOLCHAIN=local go test -tags verif -vet=off -count=1 -run TestVerifReplay -overlay %s -v %s\n",
-		s.Repo, s.Repo, filepath.Join(dir, "replay.json"), filepath.Join(dir, "overlay.json"), pkgPat)
+	timeout := ""
+	if ce.Kind == "hang" {
+		timeout = "-timeout 20s "
+	}
+	sh := fmt.Sprintf("#!/bin/sh\n# replays the counterexample natively against the real code of %s\ncd %s && VERIF_REPLAY=%s GOFLAGS=-mod=mod GOPROXY=off GOSUMDB=off GOTOOLCHAIN=local go test -tags verif -vet=off -count=1 %s-run TestVerifReplay -overlay %s -v %s\n",
+		s.Repo, s.Repo, filepath.Join(dir, "replay.json"), timeout, filepath.Join(dir, "overlay.json"), pkgPat)
 	return os.WriteFile(filepath.Join(dir, "replay.sh"), []byte(sh), 0o755)
 }
 
@@ -135,6 +139,9 @@ func RunReplay(dir string) (reproduced bool, output string) {
 	json.Unmarshal(b, &ce)
 	if strings.Contains(output, "VERIF-ASSUME-FALSE") || strings.Contains(output, "VERIF-REPLAY-MISMATCH") {
 		return false, output
+	}
+	if ce.Kind == "hang" {
+		return strings.Contains(output, "test timed out") || strings.Contains(output, "stack overflow") || strings.Contains(output, "goroutine stack exceeds"), output
 	}
 	if ce.Kind == "panic" {
 		return strings.Contains(output, "VERIF-PANIC") || strings.Contains(output, "panic:"), output
